@@ -58,7 +58,7 @@ def make_case(rng, tier):
             steps.append(["avrg", None, "none"])
         elif r < 0.64:
             ivs = []
-            for _ in range(rng.randint(2, 3)):
+            for _ in range(rng.choice([1, 2, 2, 3])):          # a list holding a single interval is a list of intervals, too
                 a, b, _k = gen.pick_interval(rng, ts, te, x)
                 ivs.append([a, b])
             steps.append(["avrg_list", ivs])
@@ -99,7 +99,7 @@ class Prop(BaseProp):
     must_see = ["kind_pwc", "kind_pwl", "ikind_same_piece", "ikind_bp_bp", "ikind_from_start", "ikind_to_end",
                 "ikind_half_half", "single_piece_function", "negative_values", "eval_on_interior_breakpoint",
                 "eval_1ulp_from_breakpoint", "eval_list_with_breakpoint", "query_after_mutation", "avrg_list", "additive",
-                "plot", "int_valued", "eval_integer_times"]
+                "plot", "int_valued", "eval_integer_times", "avrg_list_of_one"]
     must_contracts = ["inv:PieceWiseConstFunc", "inv:PieceWiseLinFunc"]
     arm_files = [("pyspike/PieceWiseConstFunc.py", None), ("pyspike/PieceWiseLinFunc.py", None)]
     assumptions = ["only the pure-Python classes are involved (no backend kernel), hence one configuration",
@@ -167,6 +167,8 @@ class Prop(BaseProp):
                 ctx.expect(abs(float(got) - float(want)) <= tol, tag + ":" + step[2], "avrg(%r)=%r, exact %r (tol %g)" % (iv, float(got), float(want), tol))
             elif op == "avrg_list":
                 ctx.count("avrg_list")
+                if len(step[1]) == 1:
+                    ctx.count("avrg_list_of_one")
                 ivs = [tuple(v) for v in step[1]]
                 got = ctx.call(obj.avrg, ivs, _name=cname + ".avrg")
                 tot = sum(mod.integral(a, b) for a, b in ivs)
